@@ -326,6 +326,7 @@ package vm
 //@ func makeType
 //@ props C04
 //@ requires riOK(runInfo) && typeStruct != nil
+//@ requires [C13] nolocks: nolocks()
 //@ requires [C08] clean: runInfo.err == nil
 //@ modifies runInfo.err
 //@ ensures [C08] nosentinel: notSentinel(runInfo.err) && runInfo.err != ErrInterrupt
@@ -334,5 +335,6 @@ package vm
 //@ func getTypeFromEnv
 //@ props C04
 //@ requires riOK(runInfo) && typeStruct != nil
+//@ requires [C13] nolocks: nolocks()
 //@ modifies runInfo.err
 //@ ensures [C08] nosentinel: notSentinel(runInfo.err) && runInfo.err != ErrInterrupt
